@@ -652,6 +652,11 @@ struct MemoInfo {
 /// dump the state, compute the settled memos, read each of them once on the main handle
 fn probe(db: &Db, cd: &CaseData, fam_of: &HashMap<u32, u8>, op: usize) -> Round {
     let dump = salsa::verif::dump_state(db);
+    if std::env::var_os("CYC_PAR_DEBUG_DUMP").is_some() {
+        for l in &dump {
+            eprintln!("DUMP {op} {l}");
+        }
+    }
     let mut cur = 0u64;
     let mut memos: BTreeMap<(u8, usize), MemoInfo> = BTreeMap::new();
     for line in &dump {
@@ -705,8 +710,28 @@ fn probe(db: &Db, cd: &CaseData, fam_of: &HashMap<u32, u8>, op: usize) -> Round 
         let r = guarded(|| call_fam(db, cd, q.0, q.1));
         settled.push((q, r));
     }
-    let after = obs().execs;
-    Round { op, cur, probe_execs: after - before, settled, unsettled }
+    let mut probe_execs = obs().execs - before;
+    // second phase: final memos last verified in an EARLIER revision (their readers were
+    // validated, not re-executed, in this one).  A read that validates them without executing
+    // anything returns the memo's value, now verified in the current revision; the first read
+    // that executes something ends the phase (that node stays unsettled).
+    let stale: Vec<(u8, usize)> = unsettled
+        .iter()
+        .copied()
+        .filter(|q| memos.get(q).is_some_and(|m| m.has_value && m.fin && m.verified < cur))
+        .collect();
+    for q in stale {
+        let b = obs().execs;
+        let r = guarded(|| call_fam(db, cd, q.0, q.1));
+        if obs().execs != b {
+            probe_execs += obs().execs - b;
+            break;
+        }
+        unsettled.retain(|u| *u != q);
+        settled.push((q, r));
+    }
+    settled.sort_by_key(|(q, _)| *q);
+    Round { op, cur, probe_execs, settled, unsettled }
 }
 
 /// keys that two different threads tried to claim (claimed, or found claimed) in this segment
